@@ -25,7 +25,8 @@ TERMINALS = ('on_complete', 'on_next_complete', 'on_error')
 
 def plan(tier, seed):
     from . import c07
-    return [('cancel', 5000 if tier == 'quick' else 60000), ('script', len(c07.script_cases(tier)))]
+    return [('cancel', 5000 if tier == 'quick' else 60000), ('raw-cancel', 2500 if tier == 'quick' else 40000),
+            ('script', len(c07.script_cases(tier)))]
 
 
 def gen_case(rng, tier):
@@ -97,10 +98,121 @@ def _first_index(world, **match):
     return None
 
 
+async def _raw_cancel(rng, d):
+    """A real endpoint producing from one of the library's sources; the raw peer consumes and cancels, possibly
+    granting credit again afterwards (a foreign peer may do that; a cancelled source must stay stopped)."""
+    import asyncio
+    from ..rawpeer import RawWorld
+    from ..apps import make_payload, DIR_REQUEST, DIR_RESPONSE, DIR_CHANNEL_UP, RecSubscriber
+    real = d['real']
+    rw = RawWorld(rng, real, link_kind=d['link'], frag=d['frag'])
+    world = rw.world
+    await rw.start()
+    peer = rw.peer
+    await asyncio.sleep(0.2)
+    iid = 1
+    cfg = {'elems': [(d['size'], 0)] * d['count'], 'terminal': d['terminal'], 'pacing': tuple(d['pacing']),
+           'source': d['source']}
+    world.inter[iid] = {}
+    req = make_payload(iid, DIR_REQUEST, 0, 12, 0)
+    if d['producer'] == 'responder':
+        direction = DIR_RESPONSE
+        sid = 1 if real == 's' else 2
+        world.specs[iid] = {'iid': iid, 'model': d['model'], 'side': 'x', 'resp': dict(cfg, up_n0=1)}
+        t = 'REQUEST_STREAM' if d['model'] == 'stream' else 'REQUEST_CHANNEL'
+        first = {'type': t, 'sid': sid, 'n': d['n0'], 'data': req.data, 'metadata': None}
+    else:
+        # the real endpoint is the channel requester, its publisher is the library source
+        direction = DIR_CHANNEL_UP
+        sid = 1 if real == 'c' else 2
+        world.specs[iid] = {'iid': iid, 'model': 'channel', 'side': real, 'up': cfg}
+        pub = rw.driver._publisher(real + '-requester', iid, DIR_CHANNEL_UP, cfg)
+        sub = RecSubscriber(world, iid, DIR_RESPONSE, 'real-sub', policy=('never',), initial_granted=1)
+        rw.ep.request_channel(req, pub).initial_request_n(1).subscribe(sub)
+        await asyncio.sleep(0.1)
+        first = {'type': 'REQUEST_N', 'sid': sid, 'n': d['n0']}
+    head = [] if (d.get('cancel_before_any_credit') and d['producer'] != 'responder') else [first]
+    steps = head + [{'type': 'REQUEST_N', 'sid': sid, 'n': n} for n in (d['more'] if head else [])] + [{'type': 'CANCEL', 'sid': sid}] \
+        + [{'type': 'REQUEST_N', 'sid': sid, 'n': n} for n in d['late']]
+    gaps = d['gaps']
+    for i, f in enumerate(steps):
+        world.log('peer_send', step=f['type'] + ('(%d)' % f['n'] if 'n' in f else ''))
+        peer.send(f)
+        g = gaps[i % len(gaps)]
+        if g[0] == 'ticks':
+            for _ in range(g[1]):
+                await asyncio.sleep(0)
+        elif g[0] == 'virtual':
+            await asyncio.sleep(g[1])
+    await asyncio.sleep(5.0)
+    st = world.inter[iid]
+    await rw.close()
+    return world, st, direction, sid
+
+
+def run_raw_cancel(idx, rng, tier):
+    from .. import vloop
+    from ..runner import short_hash
+    from ..pair import trace_excerpt
+    MAXN = 0x7FFFFFFF
+    gap = lambda: rng.choice([('none',), ('none',), ('ticks', 1), ('ticks', 3), ('virtual', 1e-3), ('virtual', 0.05), ('virtual', 0.5)])
+    d = {'real': rng.choice('sc'), 'link': rng.choice(['bytes', 'messages']), 'frag': rng.choice([None, None, 64]),
+         'producer': rng.choice(['responder', 'responder', 'channel-requester']),
+         'model': rng.choice(['stream', 'channel']), 'source': rng.choice(SOURCES),
+         'count': rng.choice([0, 1, 3, 10, 40]), 'size': rng.choice([1, 20, 200]),
+         'terminal': rng.choice(['complete', 'never', 'never', 'flag']),
+         'pacing': rng.choice([('sync',), ('tick',), ('timed', 0.01), ('timed', 0.2)]),
+         'n0': rng.choice([1, 1, 2, 5, MAXN]), 'more': [rng.choice([1, 2, 5]) for _ in range(rng.choice([0, 0, 1, 2]))],
+         'late': [rng.choice([1, 3, MAXN]) for _ in range(rng.choice([0, 1, 1, 2]))],
+         'gaps': [gap() for _ in range(4)], 'cancel_before_any_credit': rng.random() < 0.3}
+    world, st, direction, sid = vloop.run(_raw_cancel(rng, d))
+    wit = []
+    stats = {'pending_cancels_judged': 0, 'cancel_frames_received_by_producer': 0, 'cancel_before_first_credit': 0,
+             'bystanders_checked': 0}
+
+    def bad(clause, **kw):
+        wit.append({'clause': clause, 'detail': dict(kw, case=d, trace=trace_excerpt(world, 80)[-60:])})
+
+    recv = next((e['i'] for e in world.events if e['kind'] == 'wire' and e['dir'] == 'recv' and e['ep'] == d['real']
+                 and e['f'].get('type') == 'CANCEL' and e['f'].get('sid') == sid), None)
+    if recv is not None:
+        stats['cancel_frames_received_by_producer'] = 1
+        stats['pending_cancels_judged'] = 1
+        finished_before = any(e['kind'] == 'emit_terminal' and e['i'] < recv for e in world.events) or \
+            any(e['kind'] == 'emit' and e.get('complete') and e['i'] < recv for e in world.events)
+        late = [e for e in world.events if e['kind'] == 'emit' and e.get('dir') == direction and e['i'] > recv]
+        if late:
+            bad('production-after-cancel', produced_after_cancel=len(late), source=d['source'])
+        queued = [e for e in world.events if e['kind'] == 'queue' and e['ep'] == d['real'] and e['i'] > recv
+                  and e['f'].get('sid') == sid and e['f'].get('type') == 'PAYLOAD' and e['f'].get('next')]
+        if queued:
+            bad('elements-sent-after-cancel', frames=len(queued), source=d['source'])
+        pub = st.get('publishers', {}).get(direction)
+        g = st.get('gen_sources', {}).get(direction)
+        if pub is not None and pub.subscriber is not None and not finished_before and pub.cancel_calls == 0:
+            bad('publisher-not-cancelled', source='rec')
+        if g is not None:
+            if g['next_calls'] == 0:
+                stats['cancel_before_first_credit'] = 1
+            if d['source'] in ('gen', 'agen') and not finished_before and st.get('lib_sources') and g['cancel_cb'] == 0:
+                bad('publisher-not-cancelled', source=d['source'], generator_started=g['next_calls'] > 0)
+            if g.get('next_after_close'):
+                bad('production-after-cancel', source=d['source'], generator_resumed_after_close=True)
+            if d['source'] in ('rx4bp', 'rx3bp') and not finished_before and 'completed' not in g.get('feedback', []) \
+                    and any(isinstance(x, int) for x in g.get('feedback', [])):
+                bad('publisher-not-cancelled', source=d['source'], feedback=g.get('feedback', [])[:8])
+    seen = set()
+    ws = [w for w in wit if not (w['clause'] in seen or seen.add(w['clause']))]
+    return {'evals': 1, 'nt_keys': [short_hash(d)] if (recv is not None and d['late']) else [], 'deciding': stats,
+            'sigs': [world.signature()], 'witnesses': ws, 'counts': {'raw_cancel_source_' + d['source']: 1}, 'sample': d}
+
+
 def run_case(gen, idx, rng, tier):
     assert_repo()
     if gen == 'script':
         return run_script(idx, rng, tier)
+    if gen == 'raw-cancel':
+        return run_raw_cancel(idx, rng, tier)
     from .. import vloop, mixgen
     from ..runner import short_hash
     from ..pair import trace_excerpt
